@@ -15,6 +15,8 @@ import (
 	"strings"
 	"sync"
 	"time"
+
+	"golang.org/x/tools/go/ssa"
 )
 
 type propFn func(p *Program, r *Report)
@@ -41,10 +43,11 @@ type subResult struct {
 var procStart = time.Now()
 
 var (
-	noInline   = flag.Bool("no-inline", false, "do not consult the helper-inlined view when a rule fails")
+	noInline    = flag.Bool("no-inline", false, "do not consult the helper-inlined view when a rule fails")
 	inlinePairs = flag.String("inline", "", "analyse the view in which these caller>callee pairs (comma separated full names) are expanded")
 	inlineAll   = flag.String("inline-all-to", "", "tool self-test: expand every expandable helper call everywhere and write the rewritten files below this directory (relative paths kept)")
-	dumpInline = flag.String("dump-inline", "", "write the helper-inlined files to this directory and print the view's violations (debugging)")
+	dumpInit    = flag.Bool("dump-init", false, "print what the constant evaluation of package initialisation found (debugging)")
+	dumpInline  = flag.String("dump-inline", "", "write the helper-inlined files to this directory and print the view's violations (debugging)")
 )
 
 func main() {
@@ -105,6 +108,37 @@ func main() {
 		}
 		if sv.Blind > 0 || sv.FalseAlarms > 0 {
 			os.Exit(2)
+		}
+		return
+	}
+	if *dumpInit {
+		p, err := Load(*repo, parseConfig(*config))
+		if err != nil {
+			fmt.Println(err)
+			os.Exit(1)
+		}
+		ev := p.initEval()
+		for _, sp := range p.SSAPkgs {
+			fmt.Printf("package %s: %s\n", sp.Pkg.Path(), map[bool]string{true: "evaluated", false: "stopped: " + ev.aborted[sp]}[ev.aborted[sp] == ""])
+			var names []string
+			for name, m := range sp.Members {
+				if g, ok := m.(*ssa.Global); ok {
+					if v, ok := ev.globalValue(g); ok {
+						d := fmt.Sprintf("%T", v)
+						if t, ok := intTable(v); ok {
+							d = fmt.Sprintf("int table len %d", len(t))
+							if len(t) <= 40 {
+								d += fmt.Sprintf(" %v", t)
+							}
+						}
+						names = append(names, "  "+name+" = "+d)
+					}
+				}
+			}
+			sort.Strings(names)
+			for _, n := range names {
+				fmt.Println(n)
+			}
 		}
 		return
 	}
